@@ -193,6 +193,16 @@ class ExpiryBudget:
                 pass
         ready_recv = [ev for ev in new if ev[0] == 'mpsc_recv' and st.sched.tasks[ev[1]].name.startswith('{')]
         lock_by_lc = [ev for ev in new if ev[0] == 'lock' and ev[2] == 'payments' and st.sched.tasks[ev[1]].name.startswith('{')]
+        if ready_recv and not lock_by_lc and st.roots.get('c04_init') is None:
+            # a lifecycle that does not read the table after the ready signal (e.g. it takes the figures from the signal
+            # itself) initiates the payment when it consumes the signal: the HTLCs registered by then are held for it
+            regs = registered_htlcs(m)
+            if regs:
+                mn = None
+                for k in regs:
+                    ce = specs[k].cltv_expiry
+                    mn = ce if mn is None else sym.ite(sym.lt(ce, mn), ce, mn)
+                st.roots['c04_init'] = (mn, st.roots.get('height_applied', st.roots['hmx'].cell.v), list(regs))
         if lock_by_lc and not any(e[0] == 'oneshot_send' for e in new):
             regs = registered_htlcs(m)
             if regs:
@@ -253,10 +263,21 @@ class SettleOwnHash(Decisions):
                 if isinstance(v, Adt) and v.variant == 'Succeeded':
                     pre = v.fields[0]
                     tag = getattr(pre, 'tag', None)
-                    kh = key[2][1]
+                    kh = key_hash(key)
                     if tag is None:
                         raise Violation('succeeded-without-preimage', {}, 'store.succeeded', 'preimage')
                     raise_if(m, sym.ne(tag, preimage_of(kh)), 'succeeded-with-foreign-preimage', {}, 'store.succeeded', 'preimage-of-other-hash')
+
+def key_hash(key):
+    """The payment hash a datastore key names: its third element must be the hex token of a hash term (the hex
+    encoding contract, injective).  Anything else -- a key built some other way -- cannot be related to a hash by this
+    model: the run is inconclusive, never silently accepted."""
+    from .machine import Unsupported
+    el = key[2] if len(key) > 2 else None
+    if isinstance(el, tuple) and len(el) == 2 and el[0] == 'tok':
+        return el[1]
+    raise Unsupported('datastore key %r does not carry the hex encoding of a payment hash in its third element: '
+                      'which hash it belongs to (and that different hashes get different keys) cannot be established' % (key,))
 
 class NoPanicNoHang:
     """C06: no task panics; no blocking send under the payments lock; in quiescent states nobody waits."""
@@ -345,7 +366,7 @@ class WriteAhead:
     def record_state(self, m, h):
         env = m.st.env
         for key, ent in env.datastore.items():
-            if key[-1] == 'state' and (key[2][1] is h or key[2][1] == h):
+            if key[-1] == 'state' and (key_hash(key) is h or key_hash(key) == h):
                 tok = ent[0].tag if isinstance(ent[0], Seq) else None
                 if isinstance(tok, lib_std.JsonTok) and isinstance(tok.value, Adt):
                     return tok.value.variant, tok.value
